@@ -32,3 +32,28 @@ package client
 //@   loop 2 invariant inner: true
 //@   at call(response) assert entry: recv == sync.smVal(ref(c.batched), requestID).(*batchCommandsEntry)
 //@   at call(response) assert paired: exists j int :: 0 <= j && j < len(resp.RequestIds) && j < len(responses) && resp.RequestIds[j] == requestID && arg_resp == responses[j]
+
+// Sending a group registers every entry in the pending map under its own request id (the i-th id with the i-th entry)
+// before the batch goes onto the stream, so that the receive loop's lookup by id finds the right caller.
+//@ func (*batchCommandsClient) send
+//@   prop C18
+//@   may-panic
+//@   requires aligned: grp != nil && grp.req != nil && len(grp.req.RequestIds) == len(grp.entries)
+//@   loop 1 invariant l1: true
+//@   loop 2 invariant l2: grp.req == old(grp.req) && grp.entries == old(grp.entries) && grp.req.RequestIds == old(grp.req.RequestIds)
+//@   at call(Store#3) assert own: exists j int :: 0 <= j && j < len(grp.req.RequestIds) && j < len(grp.entries) && mathint(grp.req.RequestIds[j]) == mathint(arg_key.(uint64)) && arg_value.(*batchCommandsEntry) == grp.entries[j]
+
+// Failing one request removes exactly its id from the pending map and hands the error to its entry.
+//@ func (*batchCommandsClient) failRequest
+//@   prop C18
+//@   may-panic
+//@   opaque-callee retiredRequestCounter
+//@   at call(Delete) assert id: arg_key.(uint64) == requestID
+//@   at call(error) assert entry: recv == entry && arg_err == err
+
+// Failing requests by id fails, for each id, the entry found under that id.
+//@ func (*batchCommandsClient) failRequestsByIDs
+//@   prop C18
+//@   may-panic
+//@   loop 1 invariant l1: true
+//@   at call(failRequest) assert own: arg_entry == sync.smVal(ref(c.batched), arg_requestID).(*batchCommandsEntry) && arg_err == err
